@@ -320,6 +320,33 @@ pub extern "C" fn chk_encode(ptr: *const u8, n: usize) -> u32 {
 pub extern "C" fn chk_sound(ptr: *const u8, n: usize) -> u32 {
     let s = unsafe { input(ptr, n) };
     let (evs, _fin) = push_events::<ArrayBuf<64>>(s);
+    // the same stream through a decoder built around an existing, non-empty buffer must report the same things
+    {
+        let stale: ArrayBuf<64> = [0xde, 0xad, 0xbe, 0xef, 0x00, 0x1b].iter().copied().collect();
+        let mut d = Decoder::from_buf(stale);
+        let mut k = 0usize;
+        for (i, b) in s.iter().enumerate() {
+            let r = match d.push_byte(*b) {
+                Ok(None) => None,
+                Ok(Some(m)) => Some(Ev::Data(m.to_vec())),
+                Err(e) => Some(Ev::Err(e)),
+            };
+            if let Some(e) = r {
+                match evs.get(k) {
+                    Some((j, w)) => {
+                        if *j != i || *w != e {
+                            fail(203);
+                        }
+                    }
+                    None => fail(204),
+                }
+                k += 1;
+            }
+        }
+        if k != evs.len() {
+            fail(205);
+        }
+    }
     let mut delivered = 0;
     for (i, ev) in evs.iter() {
         if let Ev::Data(m) = ev {
@@ -458,6 +485,32 @@ pub extern "C" fn chk_agree(ptr: *const u8, n: usize) -> u32 {
     let (evs2, fin2) = push_events::<ArrayBuf<64>>(s);
     if evs != evs2 || fin != fin2 {
         fail(1501);
+    }
+    // push decoder constructed with from_buf around a non-empty buffer
+    {
+        let mut d = Decoder::from_buf(vec![0xde, 0xad, 0x00, 0x1b]);
+        let mut k = 0usize;
+        for (i, b) in s.iter().enumerate() {
+            let r = match d.push_byte(*b) {
+                Ok(None) => None,
+                Ok(Some(m)) => Some(Ev::Data(m.to_vec())),
+                Err(e) => Some(Ev::Err(e)),
+            };
+            if let Some(e) = r {
+                match evs.get(k) {
+                    Some((j, w)) => {
+                        if *j != i || *w != e {
+                            fail(1502);
+                        }
+                    }
+                    None => fail(1503),
+                }
+                k += 1;
+            }
+        }
+        if k != evs.len() || d.finalize() != fin {
+            fail(1504);
+        }
     }
     // decode()
     let d = decode(s);
